@@ -40,6 +40,7 @@ FIXED = [
  ("fix: treat a stored entry with a truncated body as corrupted", ["C10", "C15"], "a store returning an entry whose body is cut short was served as HIT and the client's body read ended in unexpected EOF (base scenarios x fault 'truncated-body')"),
  ("fix: concurrent Sets of keys that share a directory", ["C14"], "two goroutines storing different long keys with a common directory prefix: one Set failed with 'mkdirat ...: file exists'"),
  ("fix: a key's file can no longer collide with the directory of a longer key", ["C14"], "a 36-byte key and a longer key with that prefix could not coexist (ENOTDIR/EISDIR); the empty key could not be stored"),
+ ("fix: list keys through the root handle", ["C14"], "Keys failed with ENAMETOOLONG for every prefix once a stored key's nested fragment directories exceeded PATH_MAX (a key of about 3 kB; Set/Get/Delete of that key worked) - thorough sequences case 27526 at seed 1, now also scripted cases 0-11"),
 ]
 log = subprocess.run(["git", "-C", "/repo", "log", "--format=%h %s"], capture_output=True, text=True).stdout.splitlines()
 kf_path = os.path.join(ROOT, "known_findings.json")
